@@ -52,6 +52,13 @@ impl<'a> Question<'a> {
         self.qname.lv() == other.qname.lv() && self.qtype == other.qtype && self.qclass == other.qclass && self.unicast_response == other.unicast_response
     }
     proof fn lemma_det(data: Seq<u8>, p: int, v1: &Self, e1: int, v2: &Self, e2: int) {}
+    open spec fn wf_fit(&self) -> bool { true }
+    open spec fn wf_empty_ok() -> bool { false }
+    proof fn lemma_dec_ok(data: Seq<u8>, p: int, v: &Self, p2: int) {
+        lemma_name_dec_ok(data, p, v.qname.lv());
+        let q = p + inplace_len(data, p);
+        lemma_qcodes_rt(be16(data[q], data[q + 1]), be16(data[q + 2], data[q + 3]) & 0x7FFF);
+    }
     proof fn lemma_rt(&self, pre: Seq<u8>) {
         let d = pre + self.wf_enc();
         lemma_name_roundtrip(pre, self.qname.lv(), self.fixed_enc());
@@ -63,6 +70,14 @@ impl<'a> Question<'a> {
     }
 """)
     c.append(rel, """verus!{
+/// a question type / class obtained from a code maps back to that code
+pub proof fn lemma_qcodes_rt(t: u16, c: u16)
+    ensures
+        qtype_of_code(t) is Ok ==> qtype_of_code(code_of_qtype(qtype_of_code(t).unwrap())) == qtype_of_code(t),
+        qclass_of_code(c) is Ok ==> qclass_of_code(code_of_qclass(qclass_of_code(c).unwrap())) == qclass_of_code(c),
+{
+    crate::dns::rdata::lemma_type_code_rt(t);
+}
 /// the four fixed octets of a question read back as the type, class and unicast bit they were written from
 pub proof fn lemma_q_fixed(qtype: QTYPE, qclass: QCLASS, uni: bool)
     ensures ({
@@ -134,7 +149,9 @@ impl<'a> ResourceRecord<'a> {
 }
 """)
     c.sub(rel, RR_WF, RR_WF + """
-    open spec fn wf_ok(&self) -> bool { name_ok(self.name.lv()) && self.rdata.wf_ok() && self.rdata.wf_enc().len() <= 65535 }
+    /// (an RDATA that does not fit RDLENGTH is refused by the writers, so it is not a precondition)
+    /// the last conjunct only keeps length arithmetic within usize
+    open spec fn wf_ok(&self) -> bool { name_ok(self.name.lv()) && self.rdata.wf_ok() && self.rdata.wf_enc().len() <= 0x7fff_ffff }
     open spec fn wf_enc(&self) -> Seq<u8> {
         name_enc(self.name.lv()) + self.fixed_enc() + enc16(self.rdata.wf_enc().len() as u16) + self.rdata.wf_enc()
     }
@@ -157,6 +174,7 @@ impl<'a> ResourceRecord<'a> {
     /// flush bit / TTL version octet agree with what the parser derives, non-empty content for non-empty variants
     open spec fn wf_canon(&self) -> bool {
         &&& self.rdata.wf_canon()
+        &&& self.rdata.wf_enc().len() <= 65535
         &&& type_of_code(code_of_type(rdata_type(&self.rdata))) == rdata_type(&self.rdata)
         &&& (self.rdata is OPT <==> rdata_type(&self.rdata) == TYPE::OPT)
         &&& (match self.rdata {
@@ -174,6 +192,16 @@ impl<'a> ResourceRecord<'a> {
     proof fn lemma_det(data: Seq<u8>, p: int, v1: &Self, e1: int, v2: &Self, e2: int) {
         let q = p + inplace_len(data, p);
         RData::lemma_det(data, q, &v1.rdata, e1, &v2.rdata, e2);
+    }
+    /// RDLENGTH is 16 bits: names expanded from compression pointers may make a received RDATA larger than it can say
+    open spec fn wf_fit(&self) -> bool { self.rdata.wf_enc().len() <= 65535 }
+    open spec fn wf_empty_ok() -> bool { false }
+    proof fn lemma_dec_ok(data: Seq<u8>, p: int, v: &Self, p2: int) {
+        lemma_name_dec_ok(data, p, v.name.lv());
+        let q = p + inplace_len(data, p);
+        lemma_inplace_nonneg(data, p);
+        crate::dns::rdata::lemma_rdata_wf_dec_ok(data, q, &v.rdata, p2);
+        lemma_rr_dec_canon(data, q, v, p2);
     }
     proof fn lemma_rt(&self, pre: Seq<u8>) {
         let lv = self.name.lv();
@@ -202,6 +230,30 @@ impl<'a> ResourceRecord<'a> {
     }
 """)
     c.append(rel, """verus!{
+/// record-level canonicity of a decoded record (type code maps back, OPT class / flush / version as the parser derives them)
+pub proof fn lemma_rr_dec_canon(data: Seq<u8>, q: int, v: &ResourceRecord, p2: int)
+    requires
+        0 <= q, q + 10 <= data.len(), p2 <= data.len(),
+        v.ttl as nat == be_nat(data.subrange(q + 4, q + 8)),
+        rdata_type(&v.rdata) == type_of_code(be16(data[q], data[q + 1])),
+        RData::wf_dec(data, q, &v.rdata, p2), v.rdata.wf_canon(), v.rdata.wf_enc().len() <= 65535,
+        v.rdata is OPT || v.rdata is Empty || v.rdata.wf_enc().len() > 0,
+        (if type_of_code(be16(data[q], data[q + 1])) == TYPE::OPT { v.class == CLASS::IN && !v.cache_flush } else { true }),
+    ensures v.wf_canon()
+{
+    let x = be16(data[q], data[q + 1]);
+    crate::dns::rdata::lemma_type_code_rt(x);
+    match v.rdata {
+        RData::OPT(opt) => {
+            assert(type_of_code(x) == TYPE::OPT);
+            lemma_u32_octets(v.ttl, data.subrange(q + 4, q + 8));
+            assert(data.subrange(q + 4, q + 8)[1] == data[q + 5]);
+            let d2 = data.subrange(0, p2);
+            assert(d2[q + 5] == data[q + 5]);
+        }
+        _ => {}
+    }
+}
 /// layout of an uncompressed record after any prefix: owner name decodes in place, then 8 fixed octets, RDLENGTH, RDATA
 pub proof fn lemma_rr_layout(pre: Seq<u8>, lv: Seq<Seq<u8>>, f: Seq<u8>, rd: Seq<u8>)
     requires name_ok(lv), f.len() == 8, rd.len() <= 65535,
@@ -279,6 +331,10 @@ pub proof fn lemma_rr_fixed(rr: &ResourceRecord, data: Seq<u8>, q: int)
 }
 
 }
+""")
+    # RDLENGTH is 16 bits: larger RDATA is refused, never truncated (strengthens the trait contract for this impl)
+    c.contract(rel, RR_WF, 'write_to', """
+        ensures self.rdata.wf_enc().len() > 65535 ==> r is Err, // @C04:oversized-rdata-refused
 """)
     c.contract(rel, RR_WF, 'write_compressed_to', "", pre_body="""
         let ghost vx_m0 = io_buf(out);
